@@ -107,6 +107,7 @@ type Injected struct {
 
 // Ctx is the per-parse simulation context; it travels in globalStore["sim"].
 type Ctx struct {
+	gsSeen map[string]any // the global store as the last block was handed it
 	late     []*LateErr
 	Plan     *Plan
 	Events   []Event
@@ -129,6 +130,11 @@ type Ctx struct {
 	OptsModified bool
 }
 
+// GlobalStoreSeen returns the global store map the last code block was handed
+// (nil when no block ran). It belongs to the caller of Parse as much as to the
+// parser: a block may have returned it, or kept it.
+func (c *Ctx) GlobalStoreSeen() map[string]any { return c.gsSeen }
+
 // NewCtx makes a context for a plan.
 func NewCtx(p *Plan) *Ctx { return &Ctx{Plan: p} }
 
@@ -150,6 +156,14 @@ type VVal struct{ Vals []string }
 
 // Clone implements the generated parser's Cloner interface.
 func (v VVal) Clone() any { return VVal{Vals: append([]string(nil), v.Vals...)} }
+
+// SVal is a Cloner of slice kind. Two keys of a store may hold windows on one
+// backing array (`all` and `all[:1]`): two different values that begin at the
+// same address.
+type SVal []string
+
+// Clone implements the generated parser's Cloner interface.
+func (v SVal) Clone() any { return append(SVal(nil), v...) }
 
 // MVal is a Cloner of map kind whose elements are references: copying the map
 // alone does not separate two stores, Clone has to be called.
@@ -227,6 +241,8 @@ func Render(v any) string {
 		return "C{" + strings.Join(v.Vals, ",") + "}"
 	case VVal:
 		return "V{" + strings.Join(v.Vals, ",") + "}"
+	case SVal:
+		return "W{" + strings.Join(v, ",") + "}"
 	case MVal:
 		if e, ok := v["e"]; ok {
 			return "M{" + *e + "}"
@@ -286,6 +302,7 @@ func event(gs map[string]any, kind byte, site, line, col, off int, text []byte, 
 	}
 	c.counts[site]++
 	n := c.counts[site]
+	c.gsSeen = gs
 	// errors that are completed after they were returned: the next block does it
 	for _, l := range c.late {
 		l.done = true
@@ -423,6 +440,10 @@ func (p *Plan) StateOps(site, n int) []StateOp {
 			ops = append(ops, StateOp{"mmut", "m" + key[1:], val})
 		case isC && sel < 6:
 			ops = append(ops, StateOp{"cmut", "c" + key[1:], val})
+		case isC && sel == 6 && i == 0:
+			ops = append(ops, StateOp{"sset", "s" + key[1:], val})
+		case isC && sel == 7:
+			ops = append(ops, StateOp{"smut", "s" + key[1:], val})
 		case isC:
 			ops = append(ops, StateOp{"cset", "c" + key[1:], val})
 		default:
@@ -458,6 +479,16 @@ func ApplyReal(st map[string]any, ops []StateOp) {
 			} else {
 				v := op.Val
 				st[op.Key] = MVal{"e": &v}
+			}
+		case "sset":
+			all := SVal{op.Val, op.Val + "b", op.Val + "c"}
+			st[op.Key] = all
+			st["t"+op.Key[1:]] = all[:1] // a window on the first element
+		case "smut":
+			if v, ok := st[op.Key].(SVal); ok {
+				st[op.Key] = append(v, op.Val)
+			} else {
+				st[op.Key] = SVal{op.Val}
 			}
 		case "vmut":
 			if v, ok := st[op.Key].(VVal); ok && len(v.Vals) > 0 {
@@ -512,6 +543,9 @@ func misbehave(st map[string]any, site, n int) {
 		}
 		if m, ok := st[k].(MVal); ok && m["e"] != nil {
 			*m["e"] += "+BAD"
+		}
+		if w, ok := st[k].(SVal); ok && len(w) > 0 {
+			w[0] += "+BAD"
 		}
 	}
 	for _, k := range keys {
